@@ -11,7 +11,7 @@ DEMO=$(ls $SRC/*_test.go 2>/dev/null | head -1)
 [ -n "$DEMO" ] || { echo "no demo test in $SRC"; exit 2; }
 PKG=$(grep -m1 '^package ' $DEMO | awk '{print $2}' | sed 's/_test$//')
 case $PKG in builtInFunctions|parsers|container|atomic|check|data|txDataBuilder) DIR=$PKG;; esdt) DIR=data/esdt;; vmcommon) DIR=.;; *) DIR=builtInFunctions;; esac
-V=/tmp/vet-$ID; rm -rf $V; git -C /repo worktree add -q --detach $V HEAD || exit 2
+V=/tmp/vet-$ID; rm -rf $V; git -C /repo worktree add -q --detach $V ${VETBASE:-HEAD} || exit 2
 trap "git -C /repo worktree remove --force $V" EXIT
 cd $V
 cp $DEMO $DIR/zz_demo_test.go
